@@ -307,7 +307,7 @@ def runSection (r : Report) (s : Section) : Report := Id.run do
                            connOk := via != "namedbad", userAccept := ua }
       -- FINDING (informational, like the exits outside the quantifier): options `WithAcceptable(f), WithAcceptable(nil)`.
       -- The pinned code then calls the nil function whenever f says "not acceptable": the call leaves by a nil-call
-      -- panic AFTER the transaction has ended as the model says.  With fixes/C14-withacceptable-nil.patch the nil
+      -- panic AFTER the transaction has ended as the model says.  With fixes/not-applied/C14-withacceptable-nil.patch the nil
       -- option is ignored and the op is checked like any other.  Both are followed.
       let nilAfter := (if op.inst == 1 then accept1 else accept) == "usernil"
       if nilAfter && via != "onconn" && kvStr l.obs "ret" "?" == "nilcall" then
